@@ -2,7 +2,7 @@
    Evaluated either by vm_compute inside coqc or by the OCaml program extracted from this file. *)
 From Coq Require Import ZArith List Bool String Ascii.
 From Coq.Strings Require Import Byte.
-From CP Require Import Core.Bytes Core.Result Core.Show Prim.Int Prim.Mpint Prim.Timestamp.
+From CP Require Import Core.Bytes Core.Result Core.Show Prim.Int Prim.Mpint Prim.Timestamp Base.Enum.
 From CPGen Require Import Tables.
 Import ListNotations.
 Open Scope string_scope.
@@ -26,8 +26,61 @@ Definition flag_table (name : string) : list Z :=
 Definition zlist_of_string (s : string) : list Z :=
   if String.eqb s "-" then [] else map z_of_string (split_on "," s "").
 
+(* ---- coded enumerations (tables and vector parameters come from the generated CPGen.Tables) ---- *)
+Definition enum_table (name : string) : Z * list Z :=
+  match find (fun t => String.eqb (fst t) name) enum_tables with Some t => snd t | None => (0, []) end.
+Definition grease_of (g : Z) : option (list Z) :=
+  if g =? 1 then Some grease_one_byte else if g =? 2 then Some grease_two_byte else None.
+Definition enum_vector (name : string) : option (vparam * (list Z) * option (list Z) * Z) :=
+  match find (fun t => String.eqb (fst t) name) enum_vectors with
+  | Some (_, ((mn, mx, nm), (fac, g, w))) => Some ({| vmin := mn; vmax := mx; vnum := nm |}, snd (enum_table fac), grease_of g, w)
+  | None => None
+  end.
+Definition show_eitem (it : eitem) : string :=
+  match it with
+  | Known i => "K" ++ string_of_Z (Z.of_nat i)
+  | Invalid c Grease => "G" ++ string_of_Z c
+  | Invalid c Unknown => "U" ++ string_of_Z c
+  end.
+Definition eitem_of_string (s : string) : eitem :=
+  match s with
+  | String "K" r => Known (Z.to_nat (z_of_string r))
+  | String "G" r => Invalid (z_of_string r) Grease
+  | String _ r => Invalid (z_of_string r) Unknown
+  | EmptyString => Known 0
+  end.
+Definition eitems_of_string (s : string) : list eitem :=
+  if String.eqb s "-" then [] else map eitem_of_string (split_on "," s "").
+Definition show_in (p : nat * Z) : string := string_of_Z (Z.of_nat (fst p)) ++ " n=" ++ string_of_Z (snd p).
+Definition show_items_n (p : list eitem * Z) : string := show_list show_eitem (fst p) ++ " n=" ++ string_of_Z (snd p).
+Definition show_inv (p : (Z * invalid_kind) * Z) : string :=
+  show_eitem (Invalid (fst (fst p)) (snd (fst p))) ++ " n=" ++ string_of_Z (snd p).
+
+Definition opaque_enum (name : string) : option (vparam * list bytes) :=
+  match find (fun t => String.eqb (fst t) name) opaque_enums with
+  | Some (_, ((mn, mx, nm), codes)) => Some ({| vmin := mn; vmax := mx; vnum := nm |}, map bytes_of_hex codes)
+  | None => None
+  end.
+
 Definition run_words (ws : list string) : string :=
   match ws with
+  | ["popq"; t; h] => match opaque_enum t with
+                      | Some (p, tbl) => show_result show_in (parse_opaque_enum p tbl (bytes_of_hex h))
+                      | None => "BADCMD" end
+  | ["copq"; t; i] => match opaque_enum t with
+                      | Some (p, tbl) => show_result hex_of_bytes (compose_opaque_enum tbl (Z.to_nat (z_of_string i)))
+                      | None => "BADCMD" end
+  | ["penum"; t; h] => let (w, tbl) := enum_table t in show_result show_in (parse_enum tbl w (bytes_of_hex h))
+  | ["cenum"; t; i] => let (w, tbl) := enum_table t in show_result hex_of_bytes (compose_enum tbl w (Z.to_nat (z_of_string i)))
+  | ["pinv"; g; h] => match grease_of (z_of_string g) with
+                      | Some gt => show_result show_inv (parse_invalid gt (z_of_string g) (bytes_of_hex h))
+                      | None => "BADCMD" end
+  | ["pevec"; v; h] => match enum_vector v with
+                       | Some (p, tbl, g, w) => show_result show_items_n (parse_enum_vector p tbl g w (bytes_of_hex h))
+                       | None => "BADCMD" end
+  | ["cevec"; v; its] => match enum_vector v with
+                         | Some (p, tbl, g, w) => show_result hex_of_bytes (mk_compose_enum_vector p tbl w (eitems_of_string its))
+                         | None => "BADCMD" end
   | ["cts"; ms; w; "none"] => show_result hex_of_bytes (compose_timestamp (String.eqb ms "1") (z_of_string w) None)
   | ["cts"; ms; w; sec; mic] =>
       show_result hex_of_bytes (compose_timestamp (String.eqb ms "1") (z_of_string w)
